@@ -162,6 +162,21 @@ def cmd_check(prop, tier, only=None, keep=False, quiet=False):
             futs = [ex.submit(R.run_group, g, scratch, logs, keep) for g in groups]
             for f in futs:
                 results.append(f.result())
+        # bounded groups: the same harness is also executed natively (ASan/UBSan) on the real code;
+        # this measures the number of scenarios / assertion evaluations and cross-checks CBMC's model
+        def nat(r):
+            if r.group.kind == 'B' and r.group.replay and r.status == 'pass':
+                n = native_replay(r.group, {}, scratch)
+                m = re.search(r'NATIVE-STATS: checks=(\d+) distinct_check_sites=(\d+) scenarios=(\d+) nontrivial_scenarios=(\d+)', n.get('observation', ''))
+                r.native = {'ran': bool(m), 'failed': bool(n.get('reproduced'))}
+                if m:
+                    r.native.update({'checks': int(m.group(1)), 'sites': int(m.group(2)), 'scenarios': int(m.group(3)), 'nontrivial': int(m.group(4))})
+                if n.get('reproduced'):
+                    r.status = 'fail'
+                    r.failed = [{'name': 'native.execution', 'description': 'the bounded harness fails when executed natively on the real code: ' + n.get('observation', '')[-300:],
+                                 'inputs': {}, 'trace': [], 'location': {}}]
+        with concurrent.futures.ThreadPoolExecutor(max_workers=8) as ex:
+            list(ex.map(nat, results))
         known = [k for k in load_known() if k['property'] == prop]
         violations = []
         known_hits = []
